@@ -71,7 +71,11 @@ def check(chk):
                        "(basic, named across packages / scopes / instances) and one or two constructor levels; non-trivial = t differs from u")
     chk.sample({"pair": pairs[len(pairs) // 2]})
     from . import c07e2e
-    c07e2e.run(chk, thorough)
+    chk.cov["_pairs"] = pairs
+    try:
+        c07e2e.run(chk, thorough)
+    finally:
+        chk.cov.pop("_pairs", None)
     chk.assumptions += ["go/types values built by the harness faithfully represent the terms (checked by go/types.Identical on every pair)",
                         "descriptor identity at run time is name identity of the emitted weak-ODR symbol (checked end to end on a sample)"]
 
